@@ -22,6 +22,18 @@ package vm
 // actInvE: same, while the activation runs in a temporary child scope (r.env is restored before returning)
 //@ spec fun actInvE(r *runInfoStruct) bool = riOK(r) && r.ctx == old(r.ctx) && r.options == old(r.options) && polls >= old(polls) && !fired
 
+// notSentinel(e): e is not one of the control-flow sentinels (it may be nil)
+//@ spec fun notSentinel(e error) bool = e != ErrBreak && e != ErrContinue && e != ErrReturn
+// ASSUMPTION: the error values of package env are distinct objects from the vm's sentinels (separate errors.New calls)
+//@ axiom auto_envErrDistinct: notSentinel(env.ErrSymbolContainsDot) && env.ErrSymbolContainsDot != ErrInterrupt
+// ASSUMPTION (environment class): no typed-nil *env.Env is ever bound as a value (scripts cannot construct one)
+//@ axiom auto_envNonNilVM: forall i any :: typeis(i, "*env.Env") ==> as(i, "*env.Env") != nil
+// ASSUMPTION (parser): make/typed literals carry their type description; map types have key and element
+//@ axiom auto_wfMakeExpr: forall m *ast.MakeExpr :: m != nil ==> m.TypeData != nil
+//@ axiom auto_wfMakeTypeExpr: forall m *ast.MakeTypeExpr :: m != nil ==> m.Type != nil
+//@ axiom auto_wfTypeStruct: forall t *ast.TypeStruct :: t != nil && t.Kind == ast.TypeMap ==> t.Key != nil && t.SubType != nil
+//@ axiom auto_wfStructTypes: forall t *ast.TypeStruct, i int :: t != nil && 0 <= i && i < len(t.StructTypes) ==> t.StructTypes[i] != nil
+//@ axiom auto_wfStructNames: forall t *ast.TypeStruct :: t != nil ==> len(t.StructNames) == len(t.StructTypes)
 // ASSUMPTION (parser): the init clause of a C-style for is a var or assignment statement
 //@ axiom auto_wfCFor: forall c *ast.CForStmt :: c != nil ==> c.Stmt1 == nil || typeis(c.Stmt1, "*ast.VarStmt") || typeis(c.Stmt1, "*ast.LetsStmt") || typeis(c.Stmt1, "*ast.ExprStmt")
 // ASSUMPTION (parser): module names are identifiers, they never contain a '.'
@@ -39,12 +51,13 @@ package vm
 //@ requires [C08] clean: runInfo.err == nil
 //@ requires [C02] nofire: !fired
 //@ modifies runInfo.rv, runInfo.err, runInfo.expr, runInfo.operator, polls, fired
-//@ modifies heap("MV:Int:Int"), heap("MP:Int"), heap("env.Env.values"), heap("env.Env.types")
+//@ modifies heap("MV:Int:Int"), heap("MP:Int"), heap("env.Env.values"), heap("env.Env.types"), heap("ast.Position.Line"), heap("ast.Position.Column")
 //@ ensures [C04] env: runInfo.env == old(runInfo.env)
 //@ ensures [C04 C02 C14] keep: runInfo.ctx == old(runInfo.ctx) && runInfo.options == old(runInfo.options)
 //@ ensures [C02] firederr: fired ==> realErr(runInfo.err)
 //@ ensures [C02] pollsmono: polls >= old(polls)
 //@ ensures [C08] nosentinel: runInfo.err != ErrBreak && runInfo.err != ErrContinue && runInfo.err != ErrReturn
+//@ loops invariant actInv(runInfo) && runInfo.err == nil
 
 // evalStmt: statements additionally may register deferred calls and change runInfo.stmt; they may leave a sentinel.
 //@ func template.evalStmt
@@ -53,7 +66,7 @@ package vm
 //@ requires [C02] nofire: !fired
 //@ modifies runInfo.rv, runInfo.err, runInfo.expr, runInfo.operator, runInfo.stmt, runInfo.defers, polls, fired
 //@ modifies heap("MV:Int:Int"), heap("MP:Int"), heap("env.Env.values"), heap("env.Env.types")
-//@ modifies heap("vm.capturedFunc.fn"), heap("vm.capturedFunc.args"), heap("vm.capturedFunc.callSlice")
+//@ modifies heap("vm.capturedFunc.fn"), heap("vm.capturedFunc.args"), heap("vm.capturedFunc.callSlice"), heap("ast.Position.Line"), heap("ast.Position.Column")
 //@ ensures [C04] env: runInfo.env == old(runInfo.env)
 //@ ensures [C04 C02 C14] keep: runInfo.ctx == old(runInfo.ctx) && runInfo.options == old(runInfo.options)
 //@ ensures [C02] firederr: fired ==> realErr(runInfo.err)
@@ -66,6 +79,7 @@ package vm
 
 // ---------------------------------------------------------------------------
 // package-level facts established by the initialisers (the sentinels are distinct, non-nil errors)
+//@ global_inv sentinelalloc: allocated(payload(ErrBreak)) && allocated(payload(ErrContinue)) && allocated(payload(ErrReturn)) && allocated(payload(ErrInterrupt)) && allocated(payload(errInvalidTypeConversion)) && errInvalidTypeConversion != nil && notSentinel(errInvalidTypeConversion) && errInvalidTypeConversion != ErrInterrupt
 //@ global_inv sentineltypes: typeis(ErrBreak, "*errors.errorString") && typeis(ErrContinue, "*errors.errorString") && typeis(ErrReturn, "*errors.errorString") && typeis(ErrInterrupt, "*errors.errorString")
 //@ global_inv sentinels: ErrBreak != nil && ErrContinue != nil && ErrReturn != nil && ErrInterrupt != nil && ErrBreak != ErrContinue && ErrBreak != ErrReturn && ErrBreak != ErrInterrupt && ErrContinue != ErrReturn && ErrContinue != ErrInterrupt && ErrReturn != ErrInterrupt
 
@@ -100,7 +114,7 @@ package vm
 //@ requires [C08] clean: runInfo.err == nil
 //@ modifies runInfo.rv, runInfo.err, runInfo.expr, runInfo.operator, runInfo.stmt, runInfo.defers, polls, fired
 //@ modifies heap("MV:Int:Int"), heap("MP:Int"), heap("env.Env.values"), heap("env.Env.types")
-//@ modifies heap("vm.capturedFunc.fn"), heap("vm.capturedFunc.args"), heap("vm.capturedFunc.callSlice")
+//@ modifies heap("vm.capturedFunc.fn"), heap("vm.capturedFunc.args"), heap("vm.capturedFunc.callSlice"), heap("ast.Position.Line"), heap("ast.Position.Column")
 //@ ensures [C04] env: runInfo.env == old(runInfo.env)
 //@ ensures [C04 C02 C14] keep: runInfo.ctx == old(runInfo.ctx) && runInfo.options == old(runInfo.options)
 //@ ensures [C02] polled: polls > old(polls)
@@ -235,21 +249,28 @@ package vm
 
 //@ func (*runInfoStruct).runDefers
 //@ props C04 C09 C02
+//@ ensures [C02] firederr: fired && !old(fired) ==> runInfo.err != nil && runInfo.err != ErrReturn
 //@ requires ok: riOK(runInfo)
 //@ modifies runInfo.rv, runInfo.err, runInfo.defers, polls, fired
-//@ modifies heap("MV:Int:Int"), heap("MP:Int"), heap("env.Env.values"), heap("env.Env.types")
+//@ modifies heap("MV:Int:Int"), heap("MP:Int"), heap("env.Env.values"), heap("env.Env.types"), heap("ast.Position.Line"), heap("ast.Position.Column")
 //@ ensures [C04] env: runInfo.env == old(runInfo.env)
 //@ ensures [C04 C02 C14] keep: runInfo.ctx == old(runInfo.ctx) && runInfo.options == old(runInfo.options)
 //@ ensures [C09] rvkept: runInfo.rv == old(runInfo.rv)
 //@ ensures [C09] bodyerr: old(runInfo.err) != nil && old(runInfo.err) != ErrReturn ==> runInfo.err == old(runInfo.err)
 //@ ensures [C09] once: runInfo.defers == nil
-//@ loop 0 invariant riOK(runInfo) && runInfo.env == old(runInfo.env) && runInfo.ctx == old(runInfo.ctx) && runInfo.options == old(runInfo.options) && rv == old(runInfo.rv) && (old(runInfo.err) != nil && old(runInfo.err) != ErrReturn ==> err == old(runInfo.err)) && runInfo.defers == nil
+//@ loop 0 invariant a: riOK(runInfo) && runInfo.env == old(runInfo.env) && runInfo.ctx == old(runInfo.ctx) && runInfo.options == old(runInfo.options) && rv == old(runInfo.rv)
+//@ loop 0 invariant b: (old(runInfo.err) != nil && old(runInfo.err) != ErrReturn ==> err == old(runInfo.err)) && runInfo.defers == nil
+//@ loop 0 invariant c: (fired && !old(fired) ==> err != nil && err != ErrReturn)
+//@ loop 0 invariant d: polls >= old(polls)
 
 //@ func (*runInfoStruct).callDeferredFunc
 //@ props C04 C09 C02
+//@ ensures [C02] firederr: fired && !old(fired) ==> realErr(runInfo.err)
+//@ ensures [C02] pollsmono: polls >= old(polls)
+//@ ensures [C08] nosentinel: old(runInfo.err) == nil ==> notSentinel(runInfo.err)
 //@ requires ok: riOK(runInfo)
 //@ modifies runInfo.err, polls, fired
-//@ modifies heap("MV:Int:Int"), heap("MP:Int"), heap("env.Env.values"), heap("env.Env.types")
+//@ modifies heap("MV:Int:Int"), heap("MP:Int"), heap("env.Env.values"), heap("env.Env.types"), heap("ast.Position.Line"), heap("ast.Position.Column")
 //@ ensures [C04] env: runInfo.env == old(runInfo.env)
 //@ ensures [C04 C02 C14] keep: runInfo.ctx == old(runInfo.ctx) && runInfo.options == old(runInfo.options)
 //@ ensures [C09] rvkept: runInfo.rv == old(runInfo.rv) && runInfo.defers == old(runInfo.defers)
@@ -264,6 +285,42 @@ package vm
 //@ spec fun rvIsNil(v reflect.Value) bool
 
 //@ func template.vmfunc
-//@ modifies polls, fired, heap("MV:Int:Int"), heap("MP:Int"), heap("env.Env.values"), heap("env.Env.types")
+//@ modifies polls, fired, heap("MV:Int:Int"), heap("MP:Int"), heap("env.Env.values"), heap("env.Env.types"), heap("ast.Position.Line"), heap("ast.Position.Column")
 //@ ensures [C02] pollsmono: polls >= old(polls)
 //@ ensures [C02] firederr: (fired && !old(fired)) ==> !rvIsNil(result.1)
+
+// the function body runner created by funcExpr (runVMFunc) and its fixed-arity / reflect wrappers
+//@ func (*runInfoStruct).funcExpr$1
+//@ props C04 C02 C08 C09
+//@ like template.vmfunc
+//@ captures env: envFunc != nil && options != nil && funcExpr != nil
+//@ requires ctx != nil
+//@ requires [C01] arity: len(args) >= len(funcExpr.Params)
+//@ loop 0 invariant runInfo.env != nil && polls == old(polls) && fired == old(fired)
+
+// ---------------------------------------------------------------------------
+// public entry points
+
+//@ func RunContext
+//@ props C04 C08 C02 C09
+//@ requires ctx != nil && env != nil
+//@ modifies polls, fired, heap("MV:Int:Int"), heap("MP:Int"), heap("env.Env.values"), heap("env.Env.types"), heap("ast.Position.Line"), heap("ast.Position.Column")
+//@ ensures [C08] boundary: result.1 != ErrReturn
+
+//@ func Run
+//@ props C04 C08 C02 C09
+//@ requires env != nil
+//@ modifies polls, fired, heap("MV:Int:Int"), heap("MP:Int"), heap("env.Env.values"), heap("env.Env.types"), heap("ast.Position.Line"), heap("ast.Position.Column")
+
+//@ func Execute
+//@ props C04 C08 C02 C09
+//@ requires env != nil
+//@ modifies *
+
+//@ func ExecuteContext
+//@ props C04 C08 C02 C09
+//@ requires ctx != nil && env != nil
+//@ modifies *
+//@ spec fun vmErrVal(v reflect.Value) bool
+// the zero reflect.Value is invalid (reflect documentation)
+//@ axiom auto_zeroValueInvalid: !rvValid(nil)
